@@ -240,12 +240,14 @@ impl<'a, Version, Purpose> Default for PasetoParser<'a, Version, Purpose> {
             }
         })
             .validate_claim(NotBeforeClaim::default(), &|_, value| {
-                //let's get the expiration claim value
-                let val = value.as_str().unwrap_or_default();
                 //if there is no value here, then the user didn't provide the claim so we just move on
-                if val.is_empty() {
+                if value.is_null() {
                     return Ok(());
                 }
+                //let's get the not before claim value, anything but a string is malformed
+                let val = value
+                    .as_str()
+                    .ok_or_else(|| PasetoClaimError::RFC3339Date(value.to_string()))?;
                 //otherwise let's continue with the validation
                 //turn the value into a datetime
                 let not_before_time =
